@@ -12,8 +12,10 @@ from .ctx import PathAbort, explore_sub
 SPEC = {}
 
 
-def spec(name):
+def spec(name, override=False):
     def deco(f):
+        if name in SPEC and not override:
+            raise RuntimeError(f"spec function {name!r} is defined twice")
         SPEC[name] = f
         return f
     return deco
